@@ -254,7 +254,7 @@ namespace {
             }
             ctx.program = prog;
         }
-        sim_config sc = draw_sim_config(ctx, 60000, FAULT_STALL | FAULT_TRYFAIL);
+        sim_config sc = draw_sim_config(ctx, 60000, FAULT_STALL | FAULT_TRYFAIL | FAULT_SPURIOUS);
         begin_sim(ctx, sc);
         focus_select(ctx, c02_focus, 3);
         g_dump_hook = +[]() -> std::string {
